@@ -162,6 +162,10 @@ func (s *uciSession) send(line string) bool {
 // processed by the command loop. Returns "" or a description of what went wrong.
 func (s *uciSession) barrier() string {
 	if !s.send("isready") {
+		// either the driver has shut down (then its output closes) or its command loop is stuck
+		if s.waitFor(func(_ []string, closed bool) bool { return closed }, uciGrace/4) {
+			return "driver shut down"
+		}
 		return "driver no longer accepts input"
 	}
 	s.mu.Lock()
